@@ -52,7 +52,12 @@ def realise(rng, sysm, kind):
     traj = Trajectory(species=[Species(s) for s in species], coords=coords, lattice=Lattice(M), time_step=2e-15,
                       metadata={'temperature': 400.0})
     site_frac = np.array(sysm.sites)[perm_s] / N + tau[None, :]
-    structure = Structure(lattice=Lattice(M), species=['Li'] * sysm.S, coords=site_frac, labels=[sysm.labels[i] for i in perm_s])
+    # only the fractional coordinates of the sites count: their Structure may carry a differently oriented / scaled cell
+    if kind in ('rot', 'all'):
+        Ms = gen.lattice_matrix(sysm.G, ['chol', 'pmg', 'rot'][int(rng.integers(0, 3))], rng) * float(rng.choice([1.0, 1.0, 1.07]))
+    else:
+        Ms = M
+    structure = Structure(lattice=Lattice(Ms), species=['Li'] * sysm.S, coords=site_frac, labels=[sysm.labels[i] for i in perm_s])
     # floating atoms in this representation, in trajectory order, and the reference floating index each one is
     li_cols = [j for j in range(nat) if species[j] == 'Li']
     li_ref = [int(perm_a[j]) for j in li_cols]            # reference atom index (0..AF-1 since Li are first in the reference)
